@@ -18,7 +18,7 @@ ASSUMPTIONS = ["dyadic penalties", "igraph returns the strongly connected compon
 
 
 def budget(tier):
-    return 700 if tier == "quick" else 14000
+    return 2500 if tier == "quick" else 25000
 
 
 def gen(rng, index, tier):
@@ -27,7 +27,7 @@ def gen(rng, index, tier):
         nmax = 6 if tier == "quick" else 7
         fam = rng.choice(["sparse", "blocky", "cyclic", "cyclic", "uniform", "near", "complete"])
         raw, meta = lib.gen_dataset(rng, nmax=nmax, mmax=5, family=fam, nmin=2)
-        return {"kind": kind, "dataset": raw, "scheme": partcommon.sparse_scheme(rng), "meta": meta}
+        return {"kind": kind, "dataset": raw, "scheme": partcommon.sparse_scheme(rng, meta["family"]), "meta": meta}
     n = rng.randint(1, 7)
     elems = list(range(n))
     rng.shuffle(elems)
